@@ -194,6 +194,123 @@ def run_case(assign, steps, order, stats, add, custom=False):
             B.fresh_db(al)
 
 
+def sql_file_scenario(assign, stats, add):
+    """An evolution shipped as per-database SQL files
+    (<database>_<label>.sql): each database must run its own file."""
+    stats['cases'] += 1
+    project = base_project()
+    replay = {'scenario': 'sql-files', 'assign': assign}
+    set_route(assign)
+    try:
+        MZ.install(project, evolutions={'va': {'SEQUENCE': [],
+                                               'modules': {}}})
+        for al in DBS:
+            B.fresh_db(al)
+            r = evolve_db(al)
+            if not r.ok:
+                return
+        from vf import rows as RW
+        for al in DBS:
+            RW.populate(routed_spec(project, assign, al), 'R2', al)
+        files = {}
+        for al in DBS:
+            stmts = []
+            for model, col, val in (('Alpha', 'a', "'%s'" % al),
+                                    ('Gamma', 'c', "'%s'" % al)):
+                if assign[model] == al:
+                    stmts.append('UPDATE va_%s SET %s = %s;\n' % (
+                        model.lower(), col, val))
+            if assign['Beta'] == al:
+                stmts.append('UPDATE va_beta SET b = %d;\n' % (
+                    1 if al == 'default' else 2))
+            files['%s_e1.sql' % al] = ''.join(stmts) or 'SELECT 1;\n'
+        MZ.install(project, evolutions={'va': {
+            'SEQUENCE': ['e1'], 'modules': {}, 'sql_files': files}})
+        for al in DBS:
+            other = [x for x in DBS if x != al][0]
+            before_other = B.snapshot(other)
+            res = evolve_db(al)
+            stats['runs'] += 1
+            if B.snapshot(other) != before_other:
+                add('C16|other-database-modified|sql-files', replay,
+                    {'evolving': al})
+            if not res.ok:
+                add('C16|evolve-fails|%s|sql-files' % res.exc_type, replay,
+                    {'db': al, 'error': str(res.exc)[:300]})
+                continue
+            want = [l.strip() for l in files['%s_e1.sql' % al].splitlines()]
+            got = [q.strip() for q, _p in res.statements
+                   if q.strip().upper().startswith(('UPDATE VA_',
+                                                    'SELECT 1'))]
+            if [w for w in want if w.startswith('UPDATE')] != \
+                    [g if g.endswith(';') else g + ';' for g in got
+                     if g.upper().startswith('UPDATE')]:
+                add('C16|sql-file-of-another-database-executed|sql-files',
+                    replay, {'db': al, 'want': want, 'got': got})
+    finally:
+        B.ROUTE.clear()
+        for al in DBS:
+            B.fresh_db(al)
+
+
+def flush_scenario(assign, stats, add):
+    """Evolve both databases, `flush` the non-default one, then ship an
+    evolution touching both sides and evolve each database."""
+    from django.core.management import call_command
+    import io
+    stats['cases'] += 1
+    project = base_project()
+    steps = [('va', ['AddField', 'Alpha', 'n1', 'Int', {'null': True},
+                     None]),
+             ('va', ['AddField', 'Beta', 'n1', 'Int', {'null': True}, None]),
+             ('va', ['AddField', 'Gamma', 'n1', 'Int', {'null': True},
+                     None])]
+    final = project
+    for label, mj in steps:
+        final = ML.apply(final, label, mj)
+    hist = EB.History(project, [('va', 'e1', [mj for _l, mj in steps])])
+    replay = {'scenario': 'flush-other', 'assign': assign}
+    want1 = {al: fresh_schema(routed_spec(final, assign, al)) for al in DBS}
+    set_route(assign)
+    try:
+        hist.install(0)
+        for al in DBS:
+            B.fresh_db(al)
+            if not evolve_db(al).ok:
+                return
+        try:
+            import contextlib
+            with contextlib.redirect_stdout(io.StringIO()):
+                call_command('flush', database='other', interactive=False,
+                             verbosity=0)
+        except Exception as e:
+            add('C16|flush-fails|%s' % type(e).__name__, replay,
+                {'error': str(e)[:200]})
+            return
+        hist.install(1)
+        for al in DBS:
+            res = evolve_db(al)
+            stats['runs'] += 1
+            if not res.ok:
+                add('C16|evolve-fails|%s|after-flush' % res.exc_type,
+                    replay, {'db': al, 'error': str(res.exc)[:300]})
+                continue
+            got = O.schema_dump(al, skip=SKIP)
+            if got != want1[al]:
+                add('C16|schema-not-the-routed-models-evolved|after-flush',
+                    replay, {'db': al})
+            sm = stored_models(al)
+            wm = sorted(m['name'] for _l, m in S.iter_models(
+                routed_spec(final, assign, al)))
+            if (sm or []) != wm:
+                add('C16|stored-signature-models-not-the-routed-ones|'
+                    'after-flush', replay, {'db': al, 'got': sm, 'want': wm})
+    finally:
+        B.ROUTE.clear()
+        for al in DBS:
+            B.fresh_db(al)
+
+
 def shape_kind(steps, assign, alias):
     """Does the evolution name a model routed elsewhere / here / both?"""
     here = any(assign.get(mj[1], alias) == alias for _l, mj in steps)
@@ -205,6 +322,18 @@ def shape_kind(steps, assign, alias):
 def work(task):
     assign, progs = task
     stats = {'cases': 0, 'runs': 0, 'samples': []}
+    if progs == 'scenarios':
+        viol = {}
+
+        def add0(fp, replay, detail):
+            viol.setdefault(fp, {'count': 0, 'exemplar': replay,
+                                 'detail': detail, 'size': 1})
+            viol[fp]['count'] += 1
+        sql_file_scenario(assign, stats, add0)
+        flush_scenario(assign, stats, add0)
+        stats['samples'].append({'assign': assign, 'scenarios':
+                                 ['sql-files', 'flush-other']})
+        return stats, viol
     viol = {}
 
     def add(fp, replay, detail):
@@ -241,6 +370,7 @@ def run(tier, seed, confirm=True):
         assign = dict(zip(models, combo))
         for lo in range(0, len(progs), 8):
             tasks.append((assign, progs[lo:lo + 8]))
+        tasks.append((assign, 'scenarios'))
     total = {}
     coll = findings.Collector(PROP)
     for stats, viol in explore.run_tasks('vf.checks.c16.work', tasks,
@@ -278,8 +408,13 @@ def replay(path):
     def add(fp, replay, detail):
         found[fp] = detail
     stats = {'cases': 0, 'runs': 0}
-    run_case(r['assign'], [tuple(s) for s in r['steps']], r['order'], stats,
-             add, custom=r.get('custom', False))
+    if r.get('scenario') == 'sql-files':
+        sql_file_scenario(r['assign'], stats, add)
+    elif r.get('scenario') == 'flush-other':
+        flush_scenario(r['assign'], stats, add)
+    else:
+        run_case(r['assign'], [tuple(s) for s in r['steps']], r['order'],
+                 stats, add, custom=r.get('custom', False))
     for fp, d in found.items():
         print('  %s %s' % (fp, str(d)[:400]))
     if doc['fingerprint'] in found:
